@@ -32,6 +32,7 @@ def G():
 # ---------------------------------------------------------------------------
 
 _REAL_ATTRS = {}
+_REAL_NONE = {}
 
 
 def _real_attrs(kind):
@@ -50,6 +51,8 @@ def _real_attrs(kind):
                 "ConvexPolygon": lambda: g.ConvexPolygon((P_(0, 0, 0), P_(4, 0, 0), P_(4, 4, 0), P_(0, 4, 0))),
             }[kind]()
             _REAL_ATTRS[kind] = set(vars(sample))
+            # private attributes that a freshly constructed instance holds as None are lazily filled caches in their initial state
+            _REAL_NONE[kind] = set(k for k, v in vars(sample).items() if k.startswith("_") and v is None)
         except Exception:
             _REAL_ATTRS[kind] = None
     return _REAL_ATTRS[kind]
@@ -141,6 +144,9 @@ def shape_guard(vc, kind, obj):
     if not getattr(vc, "symbolic", False):
         return
     real = _real_attrs(kind)
+    for k in _REAL_NONE.get(kind, ()):  # a not-yet-filled private cache: the state right after construction is known without running the constructor
+        if k not in vars(obj):
+            setattr(obj, k, None)
     mine = set(k for k in vars(obj) if not k.startswith("_tok"))
     if real is not None and real != mine:
         from g3dvc.engine import EngineLimit
